@@ -1017,7 +1017,7 @@ fn with_first_line(other: &[u8], line: &[u8]) -> Vec<u8> {
 /// generated iff env `C08_TWO_MODULE` is `1` (or, without the variable, iff this constant is true). It is off by
 /// default until C10's model `BP.mapStored` / `BP.storedMatches` on main follows d2664d76 (branch agent/C10h):
 /// the lead flips THIS constant to `true` after merging it.
-pub const TWO_MODULE_DEFAULT: bool = false;
+pub const TWO_MODULE_DEFAULT: bool = true;
 
 pub fn two_module_enabled() -> bool {
     match std::env::var("C08_TWO_MODULE") {
